@@ -2613,10 +2613,21 @@ func (c *streamableClientConn) processStream(ctx context.Context, requestSummary
 		io.Copy(io.Discard, resp.Body)
 		resp.Body.Close()
 	}()
-	for evt, err := range scanEvents(resp.Body) {
+	for evt, err := range scanEventsT(resp.Body) {
+		if err == nil && !evt.terminated {
+			// The stream ended in the middle of an event. The event may be
+			// truncated, so it is discarded (and will be replayed on resumption).
+			break
+		}
 		if err != nil {
 			if ctx.Err() != nil {
 				return "", 0, true // don't reconnect: client cancelled
+			}
+
+			// A line cut short by the end of the stream is not a protocol
+			// violation: treat it like any other interruption.
+			if errors.Is(err, errTruncatedLine) {
+				break
 			}
 
 			// Malformed events are hard errors that indicate corrupted data or protocol
